@@ -61,7 +61,7 @@ func consumed(inj plan, effs []string, w *world) bool {
 		site := strings.SplitN(f, "=", 2)[0]
 		hit := false
 		switch site {
-		case "list_reg", "list_init":
+		case "list_reg", "list_init", "list_fin":
 			hit = w.listHit[site]
 		case "hook":
 			hit = w.hookHit
@@ -71,10 +71,10 @@ func consumed(inj plan, effs []string, w *world) bool {
 			eff := map[string]string{"fin": "EFin", "create": "ECreate", "del_launch": "EDelLaunch", "npatch_reg": "ENodePatchReg",
 				"pool_reg": "EPoolReg", "npatch_init": "ENodePatchInit", "pool_live1": "EPoolLive", "del_live1": "EDelLive",
 				"pool_live2": "EPoolLive", "del_live2": "EDelLive", "patch": "EPatch", "status": "EStatus", "pdel": "EPDel",
-				"term": "ETerm", "unfin": "EUnfin"}[site]
+				"term": "ETerm", "unfin": "EUnfin", "node_del": "ENodeDel"}[site]
 			n := 0
 			for _, e := range effs {
-				if strings.HasPrefix(e, eff+" ") {
+				if strings.HasPrefix(e, eff) {
 					n++
 				}
 			}
@@ -93,7 +93,7 @@ func consumed(inj plan, effs []string, w *world) bool {
 
 var effSite = map[string]string{"EFin": "fin", "ECreate": "create", "EDelLaunch": "del_launch", "ENodePatchReg": "npatch_reg",
 	"EPoolReg": "pool_reg", "ENodePatchInit": "npatch_init", "EPoolLive": "pool_live", "EDelLive": "del_live", "EPatch": "patch",
-	"EStatus": "status", "EPDel": "pdel", "ETerm": "term", "EUnfin": "unfin"}
+	"EStatus": "status", "EPDel": "pdel", "ETerm": "term", "EUnfin": "unfin", "ENodeDel": "node_del", "ENodeDelFail": "node_del"}
 
 func reached(effs []string, w *world) map[string]bool {
 	m := map[string]bool{}
@@ -280,7 +280,7 @@ func singleFaults() []plan {
 	for cr := 1; cr < len(createShapes); cr++ {
 		out = append(out, plan{Create: cr})
 	}
-	out = append(out, plan{ListReg: true}, plan{ListInit: true}, plan{PDelErr: true},
+	out = append(out, plan{ListReg: true}, plan{ListInit: true}, plan{PDelErr: true}, plan{ListFin: true}, plan{NDelErr: true},
 		plan{Hook: 1, HookD: 30}, plan{Hook: 2}, plan{Hook: 3})
 	return out
 }
@@ -341,6 +341,10 @@ func scripts(k cfgT, ks consts) map[string][]opT {
 		hp := happy(k)
 		m[fmt.Sprintf("ephemeral-taint-kind-%d", kind)] = append(append(hp[:len(hp)-3], opT{Kind: "NEph", B: true, D: kind}, opT{Kind: "NReady", D: kind % 3}, opb("NReady", true), rec(okPlan), op("Sync"), opb("NEph", false), op("NStartupOff")), tail...)
 	}
+	// somebody else's finalizer: a terminating claim that never got ours is left alone; ours is removed while theirs keeps the object
+	m["foreign-finalizer-deleted-before-ours"] = append([]opT{opb("ForeignFin", true), op("EnvDelete"), op("Sync"), rec(okPlan), rec(okPlan), opb("ForeignFin", false), op("Sync"), rec(okPlan)}, tail...)
+	m["foreign-finalizer-terminate"] = append(append(happy(k), opb("ForeignFin", true), op("EnvDelete"), op("Sync"), rec(okPlan), op("NodeVanish"), op("Sync"), rec(okPlan), op("Sync"), rec(okPlan), op("Sync"), rec(okPlan), rec(okPlan), opb("ForeignFin", false)), tail...)
+	m["foreign-finalizer-stale"] = append([]opT{opb("ForeignFin", true), rec(okPlan), op("EnvDelete"), rec(okPlan), op("Sync"), rec(okPlan), rec(okPlan), op("Sync"), rec(okPlan)}, tail...)
 	m["terminate"] = append(append(happy(k), op("EnvDelete"), op("Sync"), rec(okPlan), op("NodeVanish"), rec(okPlan), rec(okPlan)), tail...)
 	m["terminate-early"] = append([]opT{rec(okPlan), op("EnvDelete"), op("Sync"), rec(okPlan), rec(okPlan)}, tail...)
 	m["terminate-unlaunched"] = append([]opT{rec(plan{Create: 4}), op("EnvDelete"), op("Sync"), rec(okPlan)}, tail...)
@@ -415,6 +419,8 @@ func mergePlan(p, f plan) plan {
 		p.Status = f.Status
 	}
 	p.PDelErr = p.PDelErr || f.PDelErr
+	p.ListFin = p.ListFin || f.ListFin
+	p.NDelErr = p.NDelErr || f.NDelErr
 	if f.Term != 0 {
 		p.Term = f.Term
 	}
@@ -485,10 +491,12 @@ func randomHist(r *kit.Rand, ks consts, maxFaults int) hist {
 			ops = append(ops, op("Restart"))
 		case x < 96:
 			ops = append(ops, op("DupAppear"))
-		case x < 98:
+		case x < 97:
 			ops = append(ops, op("DupVanish"))
-		default:
+		case x < 99:
 			ops = append(ops, op("NodeVanish"))
+		default:
+			ops = append(ops, opb("ForeignFin", r.Chance(2, 3)))
 		}
 	}
 	return hist{K: k, Ops: ops, Tag: "random"}
@@ -598,6 +606,7 @@ func main() {
 		"lifecycle.Liveness.Reconcile = C14.Model.liveness",
 		"lifecycle.Controller.finalize = C14.Model.finalize",
 		"cache.New(time.Hour, ..), LaunchTimeout, registrationTimeout = k_ttl, k_lt, k_rt of every case (and timing_ok)",
+		"launchNodeClaim error classification (errors.As over wrapped chains) = C14.Model.pclass_of; truncateMessage observed on the condition message",
 	}
 	c.Meta.Extra = map[string]interface{}{
 		"constants": map[string]int64{"launch_cache_ttl_s": ks.TTL, "launch_timeout_s": ks.LT, "registration_timeout_s": ks.RT},
